@@ -18,7 +18,7 @@ Relevant code: {', '.join(p['anchors']['files'])}. Observable through: {'; '.joi
 TASK: produce {n} different, realistic, subtle code changes (one per worktree: {', '.join('/tmp/mut/%s_%s' % (pid, l) for l in letters)}), each of which BREAKS this property while the library still imports and the existing test suite still passes exactly as before. Realistic = the kind of slip a maintainer could make in a refactor, "optimisation" or feature addition (off-by-one at a boundary, swapped operand or byte order in one branch, wrong constant in one table row, a dropped field, a cache not invalidated, a changed threshold or comparison, a condition inverted in a rarely taken branch, a shortcut that skips a check …). Each change must need something SPECIFIC to manifest — a particular boundary value, an unusual input, a multi-step sequence of operations, a rare configuration, or two cooperating edits that each look fine alone — not something ordinary use (or the existing tests) would expose at once. Make the changes hit DIFFERENT mechanisms of the property.
 
 For each change:
-1. Edit the worktree. First record the baseline on the UNCHANGED tree once: `cd /repo && HOME=/tmp/mut/home_{pid}_base /venv/bin/python -m pytest -q -p no:cacheprovider --timeout=900 --continue-on-collection-errors 2>&1 | tail -3` (about 3.5 minutes; expect "536 passed" plus failures/errors of tests that need the network — those fail by design). Then run the same command in your changed worktree (`cd <worktree> && HOME=/tmp/mut/home_{pid} PYTHONPATH=<worktree> /venv/bin/python -m pytest …`): the number of passed tests must be the same (536) — if a test that passed before now fails, your change is too visible: revise it.
+1. Edit the worktree. The baseline on the UNCHANGED tree is already recorded: `/venv/bin/python -m pytest -q -p no:cacheprovider --timeout=900 --continue-on-collection-errors` gives "43 failed, 536 passed, 8 skipped, 48 errors" in about 3.5 minutes (the failures/errors are tests that need the network — they fail by design); do not run the suite in /repo itself. Run the same command in your changed worktree (`cd <worktree> && HOME=/tmp/mut/home_{pid} PYTHONPATH=<worktree> /venv/bin/python -m pytest -q -p no:cacheprovider --timeout=900 --continue-on-collection-errors 2>&1 | tail -3`; you may first run only the test files that touch the code you changed to iterate faster, but the full run is what counts): the number of passed tests must be the same (536) — if a test that passed before now fails, your change is too visible: revise it.
 2. Write a small demonstration program `demo.py` (plain Python using the library's public API; exits 0 when the property holds on its inputs and 1 when violated, printing what failed) that FAILS with your change and PASSES on the unchanged code (`PYTHONPATH=/repo`). Run both and record the outputs.
 3. Save in /tmp/mut/out/{pid}-<letter>/ : `patch.diff` (`git -C <worktree> diff`), `demo.py`, and `meta.json` = {{"property": "{pid}", "summary": one sentence, "needs_to_manifest": what specific input/sequence/configuration triggers it, "tests_run": the command and its result line on the changed tree, "demo_unchanged": output + exit code on the unchanged tree, "demo_changed": output + exit code on the changed tree}}.
 4. Remove the worktree when done: `git -C /repo worktree remove --force /tmp/mut/{pid}_<letter>` and delete your private home/data directories.
